@@ -535,6 +535,10 @@ def _methods(ctx):
 
 
 MUTANTS = [
+    Mutant("next-hop-told-get-whatever-was-requested", CL, "            self._handleResponse, method, uri, headers, redirectCount + 1, location\n", "            self._handleResponse, b\"GET\", uri, headers, redirectCount + 1, location\n",
+           expect_rule="pairing/method-handed-on"),
+    Mutant("see-other-switch-applied-to-the-request-only", CL, "        deferred = self._agent.request(method, location, headers)\n",
+           "        issued = b\"GET\" if response.code == http.SEE_OTHER else method\n        deferred = self._agent.request(issued, location, headers)\n"),
     Mutant("revert-F27-resolve-against-original", CL, "        location = self._resolveLocation(requestURI, locationHeaders[0])", "        location = self._resolveLocation(uri, locationHeaders[0])"),
     Mutant("revert-F27-next-hop-forgets-location", CL, "            self._handleResponse, method, uri, headers, redirectCount + 1, location\n", "            self._handleResponse, method, uri, headers, redirectCount + 1\n"),
     Mutant("next-hop-remembers-request-uri", CL, "            self._handleResponse, method, uri, headers, redirectCount + 1, location\n", "            self._handleResponse, method, uri, headers, redirectCount + 1, requestURI\n"),
@@ -567,6 +571,8 @@ MUTANTS = [
            "            return self._handleRedirect(\n                response, method, uri, headers, redirectCount\n            )"),
 ]
 SILENT = [
+    Silent("method-of-the-next-hop-by-local-name", CL, "        deferred = self._agent.request(method, location, headers)\n", "        nextMethod = method\n        deferred = self._agent.request(nextMethod, location, headers)\n",
+           more=[(CL, "            self._handleResponse, method, uri, headers, redirectCount + 1, location\n", "            self._handleResponse, nextMethod, uri, headers, redirectCount + 1, location\n")]),
     Silent("previous-response-linked-by-module-function", CL, "        def _chainResponse(newResponse):\n            newResponse.setPreviousResponse(response)\n            return newResponse\n\n        deferred.addCallback(_chainResponse)\n",
            "        deferred.addCallback(lambda newResponse, old: (newResponse.setPreviousResponse(old), newResponse)[1], response)\n"),
     Silent("response-dispatch-as-guard-clauses", CL, "        elif response.code in self._seeOtherResponses:\n            return self._handleRedirect(\n                response, b\"GET\", uri, headers, redirectCount, requestURI\n            )\n        return response",
